@@ -178,6 +178,17 @@ VARIANTS = [
     V("c07-bash-rename-shell-var-benign", [("src/bash.rs", "local literal=${{literals[$literal_id]}}\n                if [[ $subword == \"$literal\" && -v", "local lit=${{literals[$literal_id]}}\n                local literal=$lit\n                if [[ $subword == \"$literal\" && -v")], {"C07": None}),
     V("revert-52ad43c-bash-backslash", [("@revert", "52ad43c")], {"C07": "ENC:bash::make_string_constant"}),
     V("revert-0f716bf-bash-literal-quotes", [("@revert", "0f716bf")], {"C07": "SK-QUOTE:pattern"}),
+    # ---------------- C16
+    V("seed-C16-m1-subword-return-hoisted", [("@patch", "seeded/C16-m1/patch.diff")], {"C16": "LABEL:regex::do_to_dot:Subword"}),
+    V("seed-C16-m2-compadd-arm-unescaped", [("@patch", "seeded/C16-m2/patch.diff")], {"C16": "SINK:dfa::do_to_dot"}),
+    V("seed-C16-m3-outer-accepting-states", [("@patch", "seeded/C16-m3/patch.diff")], {"C16": "NODEID:dfa::do_to_dot"}),
+    V("revert-56cbc74-regex-labels-raw", [("@revert", "56cbc74")], {"C16": "SINK:regex::do_to_dot"}),
+    V("revert-0b1cb42-dfa-labels-and-base", [("@revert", "0b1cb42")], {"C16": "NODEID:dfa::do_to_dot"}),
+    V("c16-wrapper-inside-quotes", [("src/regex.rs", 'r#"{indentation}{node_dot_id}[label={}];"#,\n                make_dot_string_constant', 'r#"{indentation}{node_dot_id}[label="{}"];"#,\n                make_dot_string_constant')], {"C16": "QCTX:regex::do_to_dot"}),
+    V("c16-encoder-quote-only", [("src/regex.rs", r"""s.replace('\\', "\\\\").replace('"', "\\\"")""", r"""s.replace('"', "\\\"")""")], {"C16": "ENC:regex::escape_dot_string"}),
+    V("c16-wrong-shell-base", [("src/main.rs", "Shell::Fish => fish::ARRAY_START,", "Shell::Fish => bash::ARRAY_START,")], {"C16": "ARMS:main::aot:Fish"}),
+    V("c16-unbalanced-cluster", [("src/dfa.rs", '        writeln!(output, "{indentation}}}")?;\n    }\n\n    for (from, tos) in &dfa.transitions {', '    }\n\n    for (from, tos) in &dfa.transitions {')], {"C16": "BAL:dfa::do_to_dot"}),
+    V("c16-extra-label-benign", [("src/dfa.rs", 'writeln!(output, "{indentation}\\tcolor=grey91;")?;', 'writeln!(output, "{indentation}\\tcolor=grey92;")?;')], {"C16": None}),
     # ---------------- C10
     V("c10-std-hashset-in-dfa", [("src/dfa.rs", "use hashbrown::{HashMap, HashSet};", "use hashbrown::HashMap;\nuse std::collections::HashSet;")], {"C10": "HASHORD:dfa::dfa_from_regex"}),
     V("c10-env-var", [("src/lib.rs", '    let version = env!("COMPLGEN_VERSION");', '    let version = std::env::var("COMPLGEN_VERSION").unwrap_or_default();')], {"C10": "AMBIENT:signature"}),
